@@ -101,6 +101,14 @@ var (
 	ErrSignatureEmpty = errors.New("signature is empty")
 )
 
+// Validate performs stateless validation of a signed header, including its
+// signature. It is what go-header invokes on every header received over P2P;
+// without it the method promoted from the embedded Header would be used, which
+// does not look at the signature at all.
+func (sh *SignedHeader) Validate() error {
+	return sh.ValidateBasic()
+}
+
 // ValidateBasic performs basic validation of a signed header.
 func (sh *SignedHeader) ValidateBasic() error {
 	if err := sh.Header.ValidateBasic(); err != nil {
